@@ -436,18 +436,29 @@ class JSRegExp(JSObject):
         self.set("lastIndex", value)
         self._internal.lastIndex = value
 
+    def _load_last_index(self) -> None:
+        """Hand ToLength(lastIndex) to the matcher: the property may hold any
+        value a script assigned ("1", 1.5, NaN, -1, undefined, ...)."""
+        index = to_integer_or_infinity(self.get("lastIndex"))
+        self._internal.lastIndex = min(max(index, 0), 2**53 - 1)
+
+    def _store_last_index(self) -> None:
+        """Only global and sticky regexes ever write lastIndex."""
+        if self._internal.global_ or self._internal.sticky:
+            self.set("lastIndex", self._internal.lastIndex)
+
     def test(self, string: str) -> bool:
         """Test if the pattern matches the string."""
-        self._internal.lastIndex = self.lastIndex
+        self._load_last_index()
         result = self._internal.test(string)
-        self.lastIndex = self._internal.lastIndex
+        self._store_last_index()
         return result
 
     def exec(self, string: str):
         """Execute a search for a match."""
-        self._internal.lastIndex = self.lastIndex
+        self._load_last_index()
         result = self._internal.exec(string)
-        self.lastIndex = self._internal.lastIndex
+        self._store_last_index()
 
         if result is None:
             return NULL
